@@ -12,7 +12,7 @@ import numpy as np
 from harness import common as C
 
 HEADER = """From Coq Require Import List NArith ZArith QArith Bool. Import ListNotations.
-From TLV Require Import Base.Tensor Model.Structure Corr.C08.
+From TLV Require Import Base.Tensor Model.Structure Model.StructureHooi Corr.C08.
 Local Open Scope nat_scope."""
 
 ROUNDINGS = {"round": "RRound", "floor": "RFloor", "ceil": "RCeil"}
@@ -335,6 +335,167 @@ def extract_all(repo):
 def desc_lit(cid, fn, d):
     b = C.boolc
     return (f"({cid}%N, (DDesc (mkDesc {b(d[0])} {b(d[1])} {b(d[2])} {b(d[3])} {b(d[4])} {C.nat(d[5])})), {QOK})")
+
+
+
+# ----------------------------------------------------------------------------- the loop of partial_tucker read off the source (ast)
+# Translation of the CURRENT source of partial_tucker's for-loop into a list of statement kinds (Model/StructureHooi.v hstmt) and of the
+# init == "svd" branch of initialize_tucker into one boolean; Coq evaluates prog_ok (the hypothesis of C08_prog_run_core_projected) on it.
+# FAIL CLOSED: a statement that assigns the state (core / factors / tensor) in a form the translator does not know makes the translation
+# fail, which is reported as a broken tie; statements that assign no state (error bookkeeping, printing) are dropped.
+HOOI_STATE = ("core", "factors", "tensor")
+
+
+class Untranslatable(Exception):
+    pass
+
+
+def _targets(node):
+    """names (and subscripted names) assigned anywhere below node"""
+    out = set()
+    for n in ast.walk(node):
+        tg = []
+        if isinstance(n, ast.Assign):
+            tg = n.targets
+        elif isinstance(n, (ast.AugAssign, ast.AnnAssign)):
+            tg = [n.target]
+        elif isinstance(n, (ast.For, ast.comprehension)):
+            tg = [n.target]
+        elif isinstance(n, ast.withitem) and n.optional_vars is not None:
+            tg = [n.optional_vars]
+        for t in tg:
+            for x in ast.walk(t):
+                if isinstance(x, ast.Name):
+                    out.add(x.id)
+    return out
+
+
+def _call_name(c):
+    return getattr(c.func, "id", getattr(c.func, "attr", "")) if isinstance(c, ast.Call) else ""
+
+
+def _is_full_projection(value):
+    """multi_mode_dot(tensor, factors, ..., transpose=True) without skip"""
+    if _call_name(value) != "multi_mode_dot" or len(value.args) < 2:
+        return False
+    kw = {k.arg: k.value for k in value.keywords}
+    a0, a1 = value.args[0], value.args[1]
+    return (isinstance(a0, ast.Name) and a0.id == "tensor" and isinstance(a1, ast.Name) and a1.id == "factors" and "skip" not in kw
+            and isinstance(kw.get("transpose"), ast.Constant) and kw["transpose"].value is True)
+
+
+def _is_mask_test(t):
+    return isinstance(t, ast.Compare) and isinstance(t.left, ast.Name) and t.left.id == "mask" and len(t.ops) == 1 and isinstance(t.ops[0], ast.IsNot)
+
+
+def _translate_stmt(st, tests=()):
+    """-> list of hstmt literals for one statement of the loop body"""
+    assigned = _targets(st) & set(HOOI_STATE)
+    if isinstance(st, ast.Break):
+        names = set().union(*[_names(t) for t in tests]) if tests else set()
+        first = 0
+        for t in tests:
+            for c in ast.walk(t):
+                if isinstance(c, ast.Compare) and isinstance(c.left, ast.Name) and c.left.id == "iteration" and len(c.ops) == 1 and isinstance(c.comparators[0], ast.Constant):
+                    if isinstance(c.ops[0], ast.Gt):
+                        first = max(first, int(c.comparators[0].value) + 1)
+                    elif isinstance(c.ops[0], ast.GtE):
+                        first = max(first, int(c.comparators[0].value))
+                    else:
+                        raise Untranslatable(f"line {st.lineno}: comparison on `iteration` guarding a break")
+        return [f"(SBreakTest {C.nat(first)} {C.boolc('tol' in names)})"]
+    if isinstance(st, ast.If):
+        if _is_mask_test(st.test) and not any(isinstance(n, ast.Break) for n in ast.walk(st)):
+            if not assigned:
+                return ["SRecon"]
+            if assigned == {"tensor"} and not st.orelse:
+                return ["SImpute"]
+            raise Untranslatable(f"line {st.lineno}: `if mask is not None` assigns {sorted(assigned)}")
+        if assigned:
+            raise Untranslatable(f"line {st.lineno}: conditional assignment of {sorted(assigned)}")
+        out = []
+        for s2 in st.body + st.orelse:
+            out += [x for x in _translate_stmt(s2, tests + (st.test,)) if x.startswith("(SBreakTest")]
+        return out
+    if isinstance(st, ast.For):
+        if any(isinstance(n, ast.Break) for n in ast.walk(st)):
+            raise Untranslatable(f"line {st.lineno}: break inside an inner loop")
+        if not assigned:
+            return []
+        # for index, mode in enumerate(modes): ... x, _, _ = svd_interface(...); factors[index] = x
+        it_ok = _call_name(st.iter) == "enumerate" and len(st.iter.args) == 1 and isinstance(st.iter.args[0], ast.Name) and st.iter.args[0].id == "modes"
+        idx = st.target.elts[0].id if isinstance(st.target, ast.Tuple) and isinstance(st.target.elts[0], ast.Name) else None
+        svd_names = set()
+        sub_assign = []
+        for n in ast.walk(st):
+            if isinstance(n, ast.Assign) and _call_name(n.value) == "svd_interface":
+                t0 = n.targets[0]
+                first_el = t0.elts[0] if isinstance(t0, (ast.Tuple, ast.List)) and t0.elts else None
+                if isinstance(first_el, ast.Name):
+                    svd_names.add(first_el.id)
+                elif isinstance(first_el, ast.Subscript):
+                    sub_assign.append((first_el, None))
+            if isinstance(n, ast.Assign) and isinstance(n.targets[0], ast.Subscript):
+                sub_assign.append((n.targets[0], n.value))
+        ok = it_ok and idx is not None and assigned == {"factors"} and len(sub_assign) == 1
+        if ok:
+            tgt, val = sub_assign[0]
+            ok = isinstance(tgt.value, ast.Name) and tgt.value.id == "factors" and isinstance(tgt.slice, ast.Name) and tgt.slice.id == idx \
+                and (val is None or (isinstance(val, ast.Name) and val.id in svd_names))
+        if not ok:
+            raise Untranslatable(f"line {st.lineno}: inner loop assigning {sorted(assigned)} is not the factor sweep")
+        return ["SSweep"]
+    if isinstance(st, ast.Assign) and assigned:
+        if assigned == {"core"} and len(st.targets) == 1 and isinstance(st.targets[0], ast.Name) and _is_full_projection(st.value):
+            return ["SProject"]
+        raise Untranslatable(f"line {st.lineno}: assignment of {sorted(assigned)} is not the full projection")
+    if assigned:
+        raise Untranslatable(f"line {st.lineno}: {type(st).__name__} assigns {sorted(assigned)}")
+    return []
+
+
+def extract_hooi_prog(repo):
+    """-> Gallina literal of the hprog of the current partial_tucker / initialize_tucker source; raises Untranslatable"""
+    tree = ast.parse(open(os.path.join(repo, "tensorly/decomposition/_tucker.py")).read())
+    fns = {n.name: n for n in tree.body if isinstance(n, ast.FunctionDef)}
+    pt, it = fns.get("partial_tucker"), fns.get("initialize_tucker")
+    if pt is None or it is None:
+        raise Untranslatable("partial_tucker / initialize_tucker not found")
+    loops = [s for s in pt.body if isinstance(s, ast.For) and _call_name(s.iter) == "range" and any(isinstance(a, ast.Name) and a.id == "n_iter_max" for a in s.iter.args)]
+    if len(loops) != 1 or not (isinstance(loops[0].target, ast.Name) and loops[0].target.id == "iteration"):
+        raise Untranslatable("partial_tucker: the `for iteration in range(n_iter_max)` loop")
+    k = pt.body.index(loops[0])
+    # after the loop: only the return of (core, factors)
+    for s in pt.body[k + 1:]:
+        if isinstance(s, ast.Return):
+            v = s.value.elts[0] if isinstance(s.value, ast.Tuple) and s.value.elts else s.value
+            names = [e.id for e in v.elts if isinstance(e, ast.Name)] if isinstance(v, ast.Tuple) else []
+            if names != ["core", "factors"]:
+                raise Untranslatable("partial_tucker: does not return (core, factors)")
+        elif _targets(s) & set(HOOI_STATE):
+            raise Untranslatable(f"line {s.lineno}: state assigned after the loop")
+    # before the loop: the state comes from initialize_tucker only (the mask conversion assigns `mask`, not the state)
+    n_init = 0
+    for s in pt.body[:k]:
+        tg = _targets(s) & {"core", "factors"}
+        if tg:
+            if isinstance(s, ast.Assign) and _call_name(s.value) == "initialize_tucker":
+                n_init += 1
+            else:
+                raise Untranslatable(f"line {s.lineno}: core / factors assigned before the loop other than by initialize_tucker")
+    if n_init != 1:
+        raise Untranslatable("partial_tucker: initialize_tucker call")
+    body = []
+    for s in loops[0].body:
+        body += _translate_stmt(s)
+    # initialize_tucker: the `init == "svd"` branch ends with the full projection
+    init_proj = False
+    for s in it.body:
+        if isinstance(s, ast.If) and isinstance(s.test, ast.Compare) and isinstance(s.test.comparators[0], ast.Constant) and s.test.comparators[0].value == "svd":
+            last = [x for x in s.body if _targets(x) & {"core", "factors"}]
+            init_proj = bool(last) and isinstance(last[-1], ast.Assign) and _targets(last[-1]) & {"core", "factors"} == {"core"} and _is_full_projection(last[-1].value)
+    # statements after the if/elif chain that touch the state (non_negative=True: abs) are outside this skeleton (partial_tucker passes non_negative=False)
+    return f"(mkHprog {C.boolc(init_proj)} [{'; '.join(body)}])" if body else f"(mkHprog {C.boolc(init_proj)} (@nil hstmt))", body, init_proj
 
 
 # ----------------------------------------------------------------------------- observing the implementation
@@ -1547,15 +1708,8 @@ def _all_fixed(i):
 
 # the classes "user initialisation and no sweep", "callback stop" of the CP drivers (repaired by 3de556b) and "convergence exit" /
 # "cap 0" of non_negative_tucker(_hals) / parafac2 (repaired by 1c1a684) are kept as corpus inputs (corpus/C08/normalisation_exits.json)
-def symeig_complex_class(tc):
-    """input class of the known finding symeig_svd_complex: the factors come straight from svd_interface(method='symeig_svd') on complex
-    data (SVD initialisation, no HOOI sweep -- a sweep recomputes every factor with the default truncated_svd)"""
-    return (tc.get("svd") == "symeig_svd" and str(tc.get("dtype", "")).startswith("complex") and tc.get("init") == "svd"
-            and tc.get("n_iter_max") == 0 and tc.get("fixed") is None)
-
-
-CLASSIFIERS = {"symeig_svd_complex": lambda f: bool(f["inputs"].get("tucker_case")) and symeig_complex_class(f["inputs"])
-               and f["predicate"] in ("C08_tucker_orthonormal", "C08_tucker_core_projection", "C08_tucker_finite")}
+# the class "SVD initialisation with svd='symeig_svd' on complex data and no sweep" (repaired by d995974) is generated on every run (tucker_cases)
+CLASSIFIERS = {}
 
 
 def _install_known_loader():
@@ -1710,7 +1864,7 @@ def _run(chk, rng):
         cx_ = str(tc.get("dtype", "")).startswith("complex")
         no_sweep_user_ = tc["init"] == "user" and (tc["n_iter_max"] == 0 or (tc["fixed"] is not None and len(set(tc["fixed"])) >= len(tc["shape"])))
         if st == "ok" and not tc["mask"] and prod(tc["shape"]) <= (24 if cx_ else 36) and tc["seed"] % (3 if tier == "quick" else 2) == 0 \
-                and not no_sweep_user_ and not symeig_complex_class(tc):                            # (known finding: not evaluated exactly)      # ~0.3 s of exact arithmetic each
+                and not no_sweep_user_:      # ~0.3 s of exact arithmetic each
             qid = len(cases)
             modes_ = list(range(len(tc["shape"]))) if tc["modes"] is None else list(tc["modes"])
             cases.append(qtucker_lit(qid, X, out[0], out[1], modes_, tol_orth=(2e-3 if (tc["svd"] == "symeig_svd" and tol_for(X) > TOL) else 1e-6 if tc["svd"] == "symeig_svd" else None)))
@@ -1758,6 +1912,16 @@ def _run(chk, rng):
         cases.append(desc_lit(cid, fn_, d_))
         meta.append(dict(kind="Desc", shape=(), spec=fn_, kw=dict(fn=fn_, desc=str(d_))))
         chk.count(key=("skeleton", fn_, d_))
+    # ---- the loop of partial_tucker translated from the source
+    try:
+        plit, pbody, pinit = extract_hooi_prog(C.REPO)
+        chk.cov["hooi_program_from_source"] = {"init_svd_projects": pinit, "body": pbody}
+        cid = len(cases)
+        cases.append(f"({cid}%N, (DHprog {plit}), {QOK})")
+        meta.append(dict(kind="Hprog", shape=(), spec="partial_tucker", kw=dict(fn="partial_tucker", program=plit)))
+        chk.count(key=("hooi_program", plit))
+    except Untranslatable as e:
+        chk.broken.append({"what": "tie corr:C08 (source of partial_tucker -> hprog) broken: the loop could not be translated", "detail": str(e)})
     # ---- cp_normalize itself
     for cc in cp_normalize_cases(tier, rng):
         st, out, before = run_cp_normalize_case(cc)
@@ -1800,6 +1964,7 @@ def _run(chk, rng):
                 "corr:C08 (Model/Structure.v partial_tucker / tucker_fixed vs the implementation's shapes)" if m["kind"] == "DTuckerX" else
                 "corr:C08 (Model/StructureHooi.v hooi_run vs the call log of svd_interface / multi_mode_dot in tucker / partial_tucker)" if m["kind"] == "DHooi" else
                 "corr:C08 (loop skeleton read off the source does not satisfy desc_ok: some exit returns un-normalised factors)" if m["kind"] == "Desc" else
+                "corr:C08 (the loop of partial_tucker translated from the source does not satisfy prog_ok: some exit returns a core that is not the projection onto the returned factors)" if m["kind"] == "Hprog" else
                 "corr:C08 (Model/StructureQ.v: orthonormality / core = projection / cp_normalize evaluated exactly on the outputs)" if m["kind"] == "Q" else
                 "corr:C08 (Model/Structure.v vs rank validators / decomposition shape flow)")
         chk.disagreement(what, {"entry": ENTRY.get(m["kind"], "tensorly.decomposition." + str(m["kw"].get("fn") or m["kw"].get("entry"))), "shape": list(m["shape"]), "rank": str(m["spec"]),
